@@ -17,7 +17,7 @@ ASSUMPTIONS = [
 RULE = {
     "quick": "class representatives n<=3 x all labelled graphs n<=3 over 3 node labels x 2 bond orders (ordered both ways by the calls made), each pair queried through "
     "GraphMatcherEngine.isomorphic / get_mappings (filter on/off, max_mappings None/1), SubgraphMatch.subgraph_isomorphism / is_subgraph and graph_morphism twins "
-    "(use_filter on/off, induced/monomorphism, disjoint and overlapping node ids); hcount family n<=3; all query histories of depth 2 over 4 engines x 2 operations x ordered pairs of 4 colliding graphs and 3 graphs derived from them by copy/relabel/subgraph and then edited (derivation after the first query); find_graph_isomorphism with default matchers, invariant pre-check on/off, default-valued attributes written out / left out; the search engine's pre-filter on/off; "
+    "(use_filter on/off, induced/monomorphism, disjoint and overlapping node ids); hcount family n<=3; all query histories of depth 2 over 4 engines x 2 operations x ordered pairs of 4 colliding graphs and 3 graphs derived from them by copy/relabel/subgraph and then edited (derivation after the first query); find_graph_isomorphism with default matchers, invariant pre-check on/off, default-valued attributes written out / left out; the search engine's pre-filter on/off; engines with two selected bond attributes (the second constant); "
     "one long-lived engine under the id seam (all sequences of two ordered pairs of the colliding graphs, built, queried, dropped); non-trivial = graphs isomorphic or pattern contained",
     "thorough": "quick + representatives n<=4 (<=4 bonds) x labelled n<=3 and n<=3 x n=4 representatives; histories of depth 3 over the filter-enabled engines",
 }
